@@ -284,7 +284,7 @@ func main() {
 		"4ccd089b28ff96da9db6c346ec114e0f5b8a319f35aba624da8cf6ed4fb8a6fb",
 		"c5aa8df43f9f837bedb7442f31dcb7b166d38535076f094b85ce3a2e0b4458f7",
 	}
-	alphaLens := []int{0, 1, 72, 127, 128, 1000}
+	alphaLens := []int{0, 1, 31, 32, 33, 63, 64, 65, 72, 95, 96, 97, 127, 128, 129, 1000}
 	var cases []Case
 	n := r.Pick(30, 900)
 	for i := 0; i < n; i++ {
